@@ -110,6 +110,18 @@ def edits_for(spec_factory, rng):
         s = spec_factory()
         s.entries[i]["declared"] = len(s.payloads[i]) + 1
         yield "declared_exceeds_stored", "declared_exceeds_stored", s.assemble(), key
+        # length fields with the top bit set (a signed 32-bit reading makes them negative)
+        for nm, val in (("declared_0x80000000", 0x80000000), ("declared_0xffffffff", 0xFFFFFFFF), ("declared_0x80000000_plus_len", 0x80000000 + len(s.payloads[i]))):
+            s = spec_factory()
+            s.entries[i]["declared"] = val
+            yield nm, "declared_exceeds_stored", s.assemble(), key
+        s = spec_factory()
+        s.entries[i]["stored"] = 0x80000000 + rng.randrange(16)
+        s.entries[i]["declared"] = 0x80000000
+        yield "stored_and_declared_top_bit_set", "*", s.assemble(), key
+        s = spec_factory()
+        s.entries[i]["stored"] = 0xFFFFFFFF
+        yield "stored_0xffffffff", "*", s.assemble(), key
         s = spec_factory()
         s.entries[i]["declared"] = len(s.payloads[i])
         yield "declared_equals_stored", None, s.assemble(), key
